@@ -46,8 +46,8 @@ type Sched struct {
 	PartsOf     map[string]map[int]bool // actor -> ids of the internal tables of those maps
 	ParkOnce    map[string]string       // actor -> a point at which it parks once more (then the entry is removed)
 	keepAlive   []any
-	Pass        map[string]bool         // points that never park (and are not logged)
-	Rename      map[string]string       // point -> the name under which an arrival there is logged
+	Pass        map[string]bool   // points that never park (and are not logged)
+	Rename      map[string]string // point -> the name under which an arrival there is logged
 }
 
 func goid() int64 {
